@@ -447,8 +447,17 @@ def check_property(pid, tier, seed):
     evaluations = 0
     distinct = set()
     samples = []
+    # A change in an anchored source file is not an alarm; it only escalates the run to the thorough generators,
+    # because the hand-written model was validated against the recorded version of that file.
+    recorded = {}
+    hp = os.path.join(ROOT, 'tools', 'anchor_hashes.json')
+    if os.path.exists(hp):
+        recorded = json.load(open(hp)).get(pid, {})
+    current = source_hashes(getattr(prop, 'ANCHORS', []))
+    changed_anchors = sorted(a for a in current if a in recorded and recorded[a] != current[a])
+    cov['anchors_changed_since_model_validation'] = changed_anchors
     if run_ok:
-        escalate = bool(obligations_broken)
+        escalate = bool(obligations_broken) or bool(changed_anchors)
         ctx = RunCtx(pid, prop, tier, seed, model_ok, res, kf)
         ctx.run_all('thorough' if escalate else tier)
         if ctx.disagreements and tier == 'quick' and not escalate:
@@ -510,6 +519,14 @@ def check_property(pid, tier, seed):
     print('OK property=%s tier=%s obligations=%d/%d evaluations=%d distinct=%d wall=%.1fs' % (
         pid, tier, cov['discharged'], cov['obligations'], evaluations, len(distinct), time.time() - t0))
     return 0
+
+
+def record_hashes():
+    out = {}
+    for pid in all_props():
+        out[pid] = source_hashes(getattr(load_prop(pid), 'ANCHORS', []))
+    json.dump(out, open(os.path.join(ROOT, 'tools', 'anchor_hashes.json'), 'w'), indent=1, sort_keys=True)
+    return out
 
 
 def source_hashes(anchors):
